@@ -9,15 +9,17 @@ RULE = ("random well-formed forests (1-3 records, depth <= 5, non-contiguous and
         "OCCURS fixed/DEPENDING ON on both, REDEFINES of earlier siblings, FILLER/unnamed, 88 VALUE, 66 RENAMES, 77) printed as "
         "reference-format text with random spelling (sequence numbers, comment and blank lines, PIC/PICTURE IS, TIMES, USAGE IS, "
         "line breaks inside entries); flat streams of arbitrary level sequences (00-99, no well-nesting), with unique and with "
-        "colliding names, random REDEFINES targets; first entry 66/77/88; one stream per known defect trigger. "
+        "colliding names, random REDEFINES targets; forests in which data names are repeated under different parents (cousin groups, "
+        "elementary items) with REDEFINES inside the later groups, and forests reusing ancestor/sibling names; "
+        "first entry 66/77/88; one stream per known defect trigger. "
         "Non-trivial = more than one entry; distinct = distinct case lines.")
 TRIVIAL_BRANCHES = [0, 10]
 ASSUMPTIONS = [
     "Layer A (reference_format, dde_sentences, the clause regular expression) is not modelled here: every case checks that it "
     "returned the entries the printer wrote (level, name, filler, redefines, picture/occurs presence, compact text)",
     "calcsize of the pictures/usages in copybook_gen.PICS does not raise (the model has ValueError only for an elementary item without picture)",
-    "schema-shape model is compared only when the unique names inside each tree are pairwise distinct and none starts with REDEFINES- "
-    "(the maker's names dict is keyed by unique_name); otherwise only the DDE forest is compared (branch + 10)",
+    "the schema maker's names dict and its shared mutable dicts are modelled by a heap of objects (Model/Structure.v build), so the "
+    "emitted schemas are compared with the model on every case, repeated names included (branch + 10 = some unique name repeats in a tree)",
     "levels are the two characters matched by the sentence pattern; theorems about level NUMBERS assume ASCII digits",
 ]
 TRUSTED = ["harness/copybook_gen.py printer (its output is checked against Layer A's reading on every case)"]
@@ -82,6 +84,27 @@ HAND = [
     lambda: [G.node(1, "REC-A", children=[G.node(5, "GRP", children=[G.node(10, "F-A", pic="X"), G.node(7, "F-B", pic="X")]),
                                           G.node(3, "F-C", pic="X")])],
     lambda: [G.node(1, "REC-A", pic="X(80)")],
+    # the same group name under two parents, REDEFINES inside the later one
+    lambda: [G.node(1, "CUSTOMER-REC", children=[
+        G.node(5, "CUST-ID", pic="X(6)"),
+        G.node(5, "BILL-TO", children=[G.node(10, "ADDR", children=[G.node(15, "STREET", pic="X(20)"), G.node(15, "ZIP", pic="X(5)")])]),
+        G.node(5, "SHIP-TO", children=[G.node(10, "ADDR", children=[G.node(15, "STREET", pic="X(20)"), G.node(15, "ZIP", pic="X(5)"),
+                                                                     G.node(15, "ZIP-NUM", pic="9(5)", redefines="ZIP")]),
+                                       G.node(10, "CARRIER", pic="X(3)")]),
+        G.node(5, "CUST-STATUS", pic="X")])],
+    # REDEFINES inside the earlier one, and inside both
+    lambda: [G.node(1, "R", children=[
+        G.node(5, "P-1", children=[G.node(10, "GRP", children=[G.node(15, "A", pic="X"), G.node(15, "B", pic="9", redefines="A")])]),
+        G.node(5, "P-2", children=[G.node(10, "GRP", children=[G.node(15, "A", pic="X"), G.node(15, "B", pic="9", redefines="A"),
+                                                               G.node(15, "C", pic="X")]),
+                                   G.node(10, "A", pic="X"), G.node(10, "D", pic="X", redefines="A")])])],
+    # an item named like its own group, then a REDEFINES in that group (names[parent] is the item)
+    lambda: [G.node(1, "R", children=[G.node(5, "H", children=[G.node(10, "H", pic="X"), G.node(10, "C", pic="X"),
+                                                               G.node(10, "D", pic="X", redefines="C")])])],
+    # a group named like its grandparent holding the REDEFINES target group's name
+    lambda: [G.node(1, "R", children=[G.node(5, "G", children=[
+        G.node(10, "X", children=[G.node(15, "G", children=[G.node(20, "Q", pic="X")])]),
+        G.node(10, "C", pic="X"), G.node(10, "D", pic="X", redefines="C")])])],
     lambda: [G.node(5, "NO-01-A", pic="X"), G.node(5, "NO-01-B", pic="X")],
     lambda: [G.node(1, "REC-A", children=[G.node(5, "TBL", occurs=3, children=[G.node(10, "F-A", pic="X"), G.node(10, "F-B", pic="9")]),
                                           G.node(5, "CNT", pic="9(2)"),
@@ -104,6 +127,21 @@ def inputs(ctx):
                          ragged=rng.random() < 0.5, contiguous=rng.random() < 0.2, budget=rng.choice([6, 15, 40, 80]),
                          p_filler=rng.choice([0.05, 0.15, 0.5]), p_redefines=rng.choice([0, 0.15, 0.4]))
         yield "clean", make_case(rng, f, **spelling(rng))
+
+    # ---- the same data name under different parents (legal: qualified names), REDEFINES inside the later groups
+    for i in range(400 * scale):
+        f = G.gen_forest(rng, max_depth=rng.choice([3, 4, 5]), max_children=rng.choice([2, 3, 5]), records=rng.choice([1, 1, 2]),
+                         budget=rng.choice([15, 40, 80]), p_filler=0.05, p_redefines=rng.choice([0.2, 0.4, 0.6]),
+                         p_occurs=rng.choice([0, 0.15]), p_88=0.05, p_66=0.05, p_77=0.05)
+        G.repeat_names(rng, f, p=rng.choice([0.2, 0.4, 0.7]))
+        yield "dup_cousins", make_case(rng, f, **spelling(rng))
+    # ---- any earlier name reused, also an ancestor's or a sibling's (the maker's names dict gets confused: modelled)
+    for i in range(300 * scale):
+        f = G.gen_forest(rng, max_depth=rng.choice([3, 4, 5]), max_children=rng.choice([2, 3, 5]), records=1,
+                         budget=rng.choice([10, 25, 50]), p_filler=0.05, p_redefines=rng.choice([0.3, 0.6]),
+                         p_occurs=rng.choice([0, 0.2]), p_88=0.05, p_66=0, p_77=0)
+        G.repeat_names(rng, f, p=rng.choice([0.3, 0.6]), allow_related=True)
+        yield "dup_related", make_case(rng, f, **spelling(rng))
 
     # ---- arbitrary level sequences, unique names
     lvsets = [[1, 5, 10, 15], [1, 2, 3, 4, 5], [0, 1, 2, 49, 50, 66, 77, 88, 99], [1, 5, 5, 10, 88, 66], [3, 7, 49]]
